@@ -38,6 +38,8 @@ Alphabet == <<
     LabelS("L1"), LabelS("L2"),
     Ret, RetE(V("a")), CallF >>
     \o [i \in 1..Len(Bodies) |-> Fun("ff", <<"p">>, Bodies[i])]
+    \* a function WITHOUT parameters that assigns: the assignment is local to the call all the same
+    \o << Fun("ff", <<>>, <<Assign("a", Nm(7)), Assign("b", V("a")), LogA, RetE(V("b"))>>) >>
 
 Tuples(n) == UNION { [1..k -> 1..Len(Alphabet)] : k \in 1..n }
 ProgOf(ix) == [j \in 1..Len(ix) |-> Alphabet[ix[j]]]
